@@ -627,7 +627,45 @@ def run(prop, tier, replay=None):
                            "against the mechanism); missing paths and directories must fail without writing; asm_create_bin_file is checked at the offsets of BINOFFSETS (file length and "
                            "hash = buffer prefix) and on an unwritable path. distinct_nontrivial = distinct (size, line-end, entry point) cases.",
                       nontrivial=len({sc.sid.split("-")[-1] + str(k % 6) for k, (sc, _) in enumerate(results)}))
-    return finish(prop, tier, t0, results, L, stats_all, viol_model, replay)
+    extra = None
+    if prop == "C07" and not replay:
+        proof = inductive_proof()
+        extra = {"unbounded_inductive_proof": proof}
+        for name, res in proof["obligations"].items():
+            if res == "Error":
+                viol_model.append(("AsmStep", "Apalache: obligation %s fails" % name, proof.get("log", "")))
+    return finish(prop, tier, t0, results, L, stats_all, viol_model, replay, extra_cov=extra)
+
+
+def inductive_proof():
+    """C07/C08 in-bounds for unbounded sizes: Apalache discharges Init => IndInv, IndInv /\\ Next => IndInv', IndInv => Safe on spec/AsmStep.tla
+    (all constants and variables arbitrary integers), TLC checks on small constants that the step machine equals AsmMech!One (AsmStepEquiv.tla).
+    A timeout or a missing tool is recorded, not reported; a refuted obligation is a model violation."""
+    out = {"spec": "spec/AsmStep.tla", "obligations": {}, "equivalence_with_AsmMech_One": None}
+    work = os.path.join(A.BUILD, "apalache-%d" % os.getpid())
+    log = ""
+    for name, args in (("Init=>IndInv", ["--init=Init", "--inv=IndInv", "--length=0"]), ("IndInv/\\Next=>IndInv'", ["--init=IndInv", "--inv=IndInv", "--length=1"]),
+                       ("IndInv=>Safe", ["--init=IndInv", "--inv=Safe", "--length=0"])):
+        try:
+            r = subprocess.run(["apalache-mc", "check", "--cinit=ConstInit"] + args + ["--out-dir=" + work, "AsmStep.tla"], cwd=A.SPEC, capture_output=True, text=True, timeout=600)
+            o = r.stdout + r.stderr
+            res = "NoError" if "The outcome is: NoError" in o else "Error" if "The outcome is: Error" in o else "inconclusive"
+            if res != "NoError":
+                log += o[-1500:]
+        except (subprocess.TimeoutExpired, FileNotFoundError) as ex:
+            res = "not-run (%s)" % type(ex).__name__
+        out["obligations"][name] = res
+    shutil.rmtree(work, ignore_errors=True)
+    cfg = "AsmStepEquiv"
+    rc, o = A.tlc("AsmStepEquiv", cfg=cfg, workers=4, tag="stepequiv-%d" % os.getpid(), timeout=600)
+    m = re.search(r"(\d+) states generated, (\d+) distinct states found", o)
+    out["equivalence_with_AsmMech_One"] = {"ok": rc == 0 and "No error has been found" in o, "distinct_states": int(m.group(2)) if m else 0, "constants": "T=4 Q=6 MAXLEN=4"}
+    if not out["equivalence_with_AsmMech_One"]["ok"]:
+        out["obligations"]["AsmStepEquiv"] = "Error"
+        log += o[-1500:]
+    if log:
+        out["log"] = log
+    return out
 
 
 def finish(prop, tier, t0, results, L, stats_all, viol_model, replay, extra_cov=None, level=None, rule=None, nontrivial=None):
